@@ -5,7 +5,8 @@ import SecsModel.Model.GemComm
 
 `gemcomm run <host|equipment> <commackReq> <sysChecked 0|1><commackGate 0|1> <user cbs s.f,s.f|-> <input>,<input>,…`
 inputs: `en dis con sel lost t3 dly rx:<s>:<f>:<w>:<sys>:<commack|->`, and `cfg` — the application changes a timer setting: not an
-input of the model (durations are not modelled), answered with the unchanged state and no output
+input of the model (durations are not modelled), answered with the unchanged state and no output; `a+b`: one letter of the
+harness that is several inputs of the model, shown as one step
 answer: `ok <step>;<step>;…` with `<step> = <COMM>/<connected><selected><t3Armed><delayArmed><waitfor_communicating(0)>/<queued count>:<out>+<out>…`
 -/
 namespace SecsModel.Drv.GemComm
@@ -47,15 +48,21 @@ def showOutput : Output → String
 def showStep (s : State) (o : List Output) : String :=
   s!"{s.comm.name}/{showBool s.connected}{showBool s.selected}{showBool s.t3Armed}{showBool s.delayArmed}{showBool (reportsEstablished s)}/{s.queued.length}:" ++ "+".intercalate (o.map showOutput)
 
-def runShow (cfg : Cfg) : State → List (Option Input) → List String → List String
+/-- one letter of the harness may be several inputs of the model (`a+b`: e.g. `en+sel`, an `enable()` on a transport that
+selects the link before it returns): they are run in order and shown as one step -/
+def runLetter (cfg : Cfg) : State → List (Option Input) → List Output → State × List Output
+  | s, [], acc => (s, acc)
+  | s, none :: is, acc => runLetter cfg s is acc
+  | s, some i :: is, acc => let r := step cfg s i; runLetter cfg r.1 is (acc ++ r.2)
+
+def runShow (cfg : Cfg) : State → List (List (Option Input)) → List String → List String
   | _, [], acc => acc.reverse
-  | s, none :: is, acc => runShow cfg s is (showStep s [] :: acc)
-  | s, some i :: is, acc => let r := step cfg s i; runShow cfg r.1 is (showStep r.1 r.2 :: acc)
+  | s, l :: ls, acc => let r := runLetter cfg s l []; runShow cfg r.1 ls (showStep r.1 r.2 :: acc)
 
 def handle : List String → String
   | ["run", role, ck, flags, cbs, inputs] =>
     match (if role == "host" then some Role.host else if role == "equipment" then some Role.equipment else none),
-          parseNat ck, parsePairs cbs, (inputs.splitOn ",").mapM parseInput with
+          parseNat ck, parsePairs cbs, (inputs.splitOn ",").mapM (fun l => (l.splitOn "+").mapM parseInput) with
     | some role, some ck, some cbs, some ins =>
       let fl := flags.toList
       let cfg : Cfg := { role := role, commackReq := ck, userCbs := cbs, sysChecked := fl.getD 0 '0' == '1', commackGate := fl.getD 1 '0' == '1' }
